@@ -12,6 +12,9 @@ struct CbFace {
     std::map<uint32_t, bool> absent;
     int gets = 0, releases = 0, outstanding = 0, late_gets = 0;
     bool sealed = false;                                          // set after gr_make_face returns (C16: preloadAll)
+    bool fresh = false;                                           // every get hands out its own heap copy, freed on release (C16)
+    std::vector<void *> lent;                                     // fresh mode: copies currently with the library
+    int bad_releases = 0;                                         // release of a pointer that is not outstanding
     std::vector<std::string> trace;
     bool tracing = false;
 
@@ -29,7 +32,7 @@ struct CbFace {
             if (off <= ttf.size() && len <= ttf.size() - off) set(tag, &ttf[off], len);
         }
     }
-    ~CbFace() { for (auto &t : tables) free(t.second.first); }
+    ~CbFace() { for (auto &t : tables) free(t.second.first); for (void *q : lent) free(q); }
     void set(uint32_t tag, const uint8_t *p, size_t n) {
         auto it = tables.find(tag);
         if (it != tables.end()) free(it->second.first);
@@ -49,11 +52,24 @@ struct CbFace {
         ++s->outstanding;
         *len = it->second.second;
         if (s->tracing) s->trace.push_back("get " + hex32(name));
+        if (s->fresh) {
+            void *c = malloc(it->second.second ? it->second.second : 1);
+            if (it->second.second) memcpy(c, it->second.first, it->second.second);
+            s->lent.push_back(c);
+            return c;
+        }
         return it->second.first;
     }
     static void release_table(const void *h, const void *p) {
         CbFace *s = (CbFace *)h;
         ++s->releases; --s->outstanding;
+        if (s->fresh) {
+            bool found = false;
+            for (size_t i = 0; i < s->lent.size(); ++i) if (s->lent[i] == p) { s->lent.erase(s->lent.begin() + i); found = true; break; }
+            if (!found) { ++s->bad_releases; return; }
+            free(const_cast<void *>(p));       // from now on any access by the library is a use-after-free the sanitizer reports
+            return;
+        }
         if (s->tracing) {
             std::string tg = "?";
             for (auto &t : s->tables) if (t.second.first == p) tg = hex32(t.first);
